@@ -9,6 +9,17 @@ snapshots with an independently computed kernel matrix.
 streams:  main     small-integer / dyadic data, C over several magnitudes  -> must be clean
           extreme  tiny-scale data with huge C (finding F3, repaired by /repo commit bc5f2886; a
                    recurrence carries the stable key  box2d:tiny-det-fallback)        -> must be clean
+          long     hundreds of overlapping Gaussian points, Gaussian kernel, C in {10,100}, eps 1e-3: thousands of iterations,
+                   SPARSE recording (state before/after every shrink / unshrink / checkKKT call).  SHRINK-EVENT MONITOR: every
+                   variable removed by a shrink() call must be unable to improve the objective at that moment (true gradient
+                   lin - K alpha from the independent kernel matrix, KKT bounds of all variables the decision was taken on);
+                   the un-shrink-inside-shrink branch must be reached (obligation) and the extracted composite
+                   C08Reshrink.reshrink must reproduce the active set of each such event exactly.
+          hist     OBJECT HISTORY: the same problem object is solved, modified through its public mutators (setLinear,
+                   setInitialSolution, scaleBoxConstraints, activateVariable, flipCoordinates, unshrink, setShrinking) and
+                   solved again with shrinking; all invariants are monitored on the mutator events and on the second solve
+                   against the modified data, the mutators are tied to C08Mutators.mstep one step at a time, and the
+                   optimum is compared with a FRESH object built from the modified data.
 """
 import os, sys, re, math, struct, json
 sys.path.insert(0, os.path.dirname(os.path.abspath(__file__)))
@@ -106,12 +117,85 @@ def gen_run(rng, rid, big=False, extreme=False):
     c["stream"] = "main"
     return c
 
+def mut_tokens(m):
+    k = m[0]
+    if k == "L": return ["L", str(m[1]), fhex(m[2])]
+    if k == "I": return ["I"] + [fhex(v) for v in m[1]]
+    if k == "S": return ["S", fhex(m[1]), fhex(m[2])]
+    if k in ("A", "T"): return [k, str(m[1])]
+    if k == "X": return ["X", str(m[1]), str(m[2])]
+    return [k]
+
+def gen_long(rng, rid, big=False):
+    """long run: hundreds of overlapping points, Gaussian kernel, C in {10,100}, eps 1e-3 -> thousands of iterations, several
+    periodic shrink events and (usually) the one-time un-shrink inside shrink(); recorded sparsely (tag LRUN)"""
+    n = rng.randint(120, 420 if big else 260)
+    kind = "svm" if rng.random() < 0.75 else "box"
+    sep = rng.choice([0.5, 0.7, 0.7, 1.0])
+    y = [i % 2 for i in range(n)]
+    if rng.random() < 0.3: rng.shuffle(y)
+    x = [[rng.gauss(0, 1) + (sep if y[i] else -sep), rng.gauss(0, 1)] for i in range(n)]
+    C = rng.choice([10.0, 100.0, 100.0])
+    return {"tag": "LRUN", "id": rid, "kind": kind, "sel": rng.choice(SVM_SEL if kind == "svm" else ["maxgain", "maxgain", "ws2"]), "shrink": 1,
+            "matrix": rng.choice(["pd", "cd", "cd", "cf", "pdg"]), "cachesize": rng.choice([100000000, 100000000, 40 * n]), "kernel": "rbf",
+            "gamma": rng.choice([0.5, 1.0, 1.0, 2.0]), "Cneg": C, "Cpos": C * rng.choice([1, 1, 1, 0.5]), "eps": 1e-3,
+            "maxiter": 60000 if big else 25000, "n": n, "d": 2, "warm": 0, "y": y, "x": x, "stream": "long"}
+
+def feasible_alpha(rng, c):
+    n = c["n"]; y = c["y"]; a0 = [0.0] * n
+    pos = [i for i in range(n) if y[i]]; neg = [i for i in range(n) if not y[i]]
+    if c["kind"] == "svm":          # pairs +t / -t: the sum stays 0, so a fresh object (alpha = 0) solves the same problem
+        for _ in range(rng.randint(1, 4)):
+            if not pos or not neg: break
+            p, q = rng.choice(pos), rng.choice(neg)
+            if a0[p] or a0[q]: continue
+            t = min(c["Cpos"], c["Cneg"]) * rng.choice([1.0, 0.5, 0.25])
+            a0[p] = t; a0[q] = -t
+    else:
+        for i in range(n):
+            if rng.random() < 0.3: a0[i] = (c["Cpos"] if y[i] else -c["Cneg"]) * rng.choice([1.0, 0.5, 0.25])
+    return a0
+
+def gen_hist(rng, rid, big=False):
+    """object history (tag HIST): solve, apply public mutators to the SAME object, solve again with shrinking"""
+    c = gen_run(rng, rid, big)
+    c["tag"] = "HIST"; c["stream"] = "hist"; c["shrink"] = 1
+    c["maxiter"] = rng.choice([400, 2000, 2000]); c["eps"] = rng.choice([1e-3, 1e-3, 1e-2])
+    n = c["n"]; muts = []
+    scal_ok = c["kind"] == "svm" and not c["matrix"].endswith("g")      # the only instantiation with scaleBoxConstraints(f, v)
+    for _ in range(rng.randint(1, 4)):
+        r = rng.random()
+        if r < 0.45:       # adapt the linear term of a subset of the variables (every k-th, or a few random ones)
+            if rng.random() < 0.5:
+                k = rng.randint(2, 5); sub = [p for p in range(n) if p % k == 0]
+            else:
+                sub = rng.sample(range(n), rng.randint(1, max(1, n // 2)))
+            f = rng.choice([0.75, 0.5, 1.5, 2.0, 0.0, -1.0])
+            for p in sub:
+                base = 1.0 if c["y"][p] else -1.0
+                muts.append(("L", p, base * f if rng.random() < 0.8 else rng.randint(-8, 8) / 4.0))
+        elif r < 0.6 and os.environ.get("C08_HIST_SETINIT"):
+            muts.append(("I", feasible_alpha(rng, c)))
+        elif r < 0.75 and scal_ok:
+            f, v = rng.choice([(2.0, 2.0), (0.5, 0.5), (4.0, 4.0), (2.0, 1.0), (4.0, 1.0), (2.0, 0.5), (1.0, 0.5), (1.0, 1.0)])
+            muts.append(("S", f, v)); c["_scaled"] = True
+        elif r < 0.82: muts.append(("A", rng.randrange(n)))
+        elif r < 0.9: muts.append(("X", rng.randrange(n), rng.randrange(n)))
+        elif r < 0.95: muts.append(("U",))
+        else: muts.append(("T", 1))
+    c.pop("_scaled", None)
+    c["muts"] = muts
+    return c
+
 def run_line(c):
-    t = ["RUN", c["id"], c["kind"], c["sel"], str(c["shrink"]), c["matrix"], str(c["cachesize"]), c["kernel"],
+    t = [c.get("tag", "RUN"), c["id"], c["kind"], c["sel"], str(c["shrink"]), c["matrix"], str(c["cachesize"]), c["kernel"],
          fhex(c["gamma"]), fhex(c["Cneg"]), fhex(c["Cpos"]), fhex(c["eps"]), str(c["maxiter"]), str(c["n"]), str(c["d"]), str(c["warm"])]
     t += [str(v) for v in c["y"]]
     t += [fhex(v) for p in c["x"] for v in p]
     if c["warm"]: t += [fhex(v) for v in c["a0"]]
+    if c.get("tag") == "HIST":
+        t.append(str(len(c["muts"])))
+        for m in c["muts"]: t += mut_tokens(m)
     return " ".join(t)
 
 def parse_run_line(l):
@@ -123,7 +207,20 @@ def parse_run_line(l):
     n, d = c["n"], c["d"]; p = 16
     c["y"] = [int(v) for v in t[p:p + n]]; p += n
     c["x"] = [[pf(t[p + i * d + k]) for k in range(d)] for i in range(n)]; p += n * d
-    if c["warm"]: c["a0"] = [pf(v) for v in t[p:p + n]]
+    if c["warm"]: c["a0"] = [pf(v) for v in t[p:p + n]]; p += n
+    c["tag"] = t[0]
+    if t[0] == "HIST":
+        nm = int(t[p]); p += 1; c["muts"] = []
+        for _ in range(nm):
+            k = t[p]; p += 1
+            if k == "L": c["muts"].append(("L", int(t[p]), pf(t[p + 1]))); p += 2
+            elif k == "I": c["muts"].append(("I", [pf(v) for v in t[p:p + n]])); p += n
+            elif k == "S": c["muts"].append(("S", pf(t[p]), pf(t[p + 1]))); p += 2
+            elif k in ("A", "T"): c["muts"].append((k, int(t[p]))); p += 1
+            elif k == "X": c["muts"].append(("X", int(t[p]), int(t[p + 1]))); p += 2
+            else: c["muts"].append((k,))
+    if t[0] == "LRUN": c["stream"] = "long"; return c
+    if t[0] == "HIST": c["stream"] = "hist"; return c
     c["stream"] = "extreme" if (c["kind"] == "box" and max(abs(v) for q in c["x"] for v in q) < 0.01 and c["Cneg"] >= 1e6) else "main"
     return c
 
@@ -149,26 +246,39 @@ def parse_snap(t, p, n):
     s.fu = [int(v) for v in t[q:q + n]]
     return s
 
-NARGS = {"smo": 2, "shrink": 2, "unshrink": 0, "kkt": 1}
+NARGS = {"smo": 2, "shrink": 2, "unshrink": 0, "kkt": 1, "setlin": 2, "scale": 4, "activate": 1, "flip": 2, "setshr": 1}
+MUTATORS = ("setlin", "setinit", "scale", "activate", "flip", "setshr")
+
+def nargs(name, n):
+    return n if name == "setinit" else NARGS[name]
 
 def parse_trace(text):
-    """-> list of runs: dict(id,n,kind,shrink,K,s0,events=[(name,args,snap,rawline)],final,end,exc)"""
-    runs = []; cur = None
+    """-> list of runs: dict(id,n,kind,shrink,K,s0,events=[(name,args,snap,rawline)],pre={event index: (nsmo, snap)},
+    order=[("E",k)|("F",snap)|("MUT",)|("SOLVE2",)], final (last F), end (first END), ends, fresh, exc)"""
+    runs = []; cur = None; pend = None
     for l in text.split("\n"):
         if not l: continue
         t = l.split()
         h = t[0]
         if h == "RUN":
-            cur = {"id": t[1], "n": int(t[2]), "kind": t[3], "shrink": int(t[4]), "events": [], "K": None, "s0": None, "final": None, "end": None, "exc": None}
-            runs.append(cur)
+            cur = {"id": t[1], "n": int(t[2]), "kind": t[3], "shrink": int(t[4]), "events": [], "pre": {}, "order": [], "K": None, "s0": None,
+                   "final": None, "end": None, "ends": [], "fresh": None, "exc": None, "stage": 0}
+            runs.append(cur); pend = None
         elif cur is None: continue
         elif h == "K": cur["K"] = [pfl(v) for v in t[1:]]
         elif h == "S0": cur["s0"] = parse_snap(t, 1, cur["n"])
+        elif h == "P": pend = (int(t[1]), parse_snap(t, 2, cur["n"]))
         elif h == "E":
-            k = NARGS[t[1]]
+            k = nargs(t[1], cur["n"])
+            if pend is not None: cur["pre"][len(cur["events"])] = pend; pend = None
+            cur["order"].append(("E", len(cur["events"])))
             cur["events"].append((t[1], t[2:2 + k], parse_snap(t, 2 + k, cur["n"]), l))
-        elif h == "F": cur["final"] = parse_snap(t, 1, cur["n"])
-        elif h == "END": cur["end"] = (int(t[1]), int(t[2]), pfl(t[3]), pfl(t[4]))
+        elif h == "F": cur["final"] = parse_snap(t, 1, cur["n"]); cur["order"].append(("F", cur["final"]))
+        elif h == "END":
+            e = (int(t[1]), int(t[2]), pfl(t[3]), pfl(t[4])); cur["ends"].append(e)
+            if cur["end"] is None: cur["end"] = e
+        elif h in ("MUT", "SOLVE2"): cur["order"].append((h,))
+        elif h == "FRESH": cur["fresh"] = (int(t[1]), int(t[2]), pfl(t[3]), pfl(t[4]), int(t[5]), [pfl(v) for v in t[6:]])
         elif h in ("EXC", "STDEXC"): cur["exc"] = l
     return runs
 
@@ -208,9 +318,74 @@ def recompute(c, K, s):
         obj += s.alpha[a] * (s.lin[a] - 0.5 * ka)
     return g, ge, obj, scale
 
-def monitor(c, run, K, stop_first=True):
+def shrink_event_check(c, K, prev, s, tol, info=None):
+    """SHRINK-EVENT MONITOR.  prev / s: state before / after one call of shrink().  Every variable removed by the call must be
+    unable to improve the objective at that moment: it sits at a bound and, with the TRUE gradient g = lin - K alpha (independent
+    kernel matrix, all variables), no feasible first-order ascent direction contains it.  The decision of the call is taken on the
+    variables that are active when the shrink loop runs: the previously active ones, or ALL variables when shrink() un-shrank the
+    problem first.  Equality-constrained problem (feasible directions e_u - e_d, u below its upper bound, d above its lower bound):
+        removed at its lower bound:  g_v <= smallestDown = min{ g_d : d can move down }      (code: gradient(v) < smallestDown)
+        removed at its upper bound:  g_v >= largestUp    = max{ g_u : u can move up }        (code: gradient(v) > largestUp)
+    box-only problem (directions +-e_v):  at the lower bound g_v <= 0, at the upper bound g_v >= 0.   Slack tol ~ rounding of the
+    maintained gradient (proportional to the gradient scale).  -> list of (key, message)"""
+    n = c["n"]
+    gp = recompute(c, K, prev)[0]
+    inside = prev.active < n and bool(s.unshr) and not prev.unshr
+    npos = n if inside else prev.active
+    G = {}
+    for b in range(n): G[prev.perm[b]] = (gp[b], prev.alpha[b], prev.lo[b], prev.hi[b], b)
+    dec = set(prev.perm[:npos])
+    def bounds(vs):
+        up = [(G[u][0], u) for u in vs if G[u][1] < G[u][3]]
+        dn = [(G[u][0], u) for u in vs if G[u][1] > G[u][2]]
+        return (max(up) if up else None), (min(dn) if dn else None)
+    lu, sd = bounds(dec)
+    removed = 0; msgs = []
+    for a in range(s.active, n):
+        v = s.perm[a]
+        if v not in dec: continue                      # removed by an earlier event
+        removed += 1
+        gv, av, lv, hv, _ = G[v]
+        at_lo, at_hi = av == lv, av == hv
+        how = " (shrink() un-shrank the problem first: decision on all %d variables)" % n if inside else " (decision on the %d active variables)" % npos
+        if not (at_lo or at_hi):
+            msgs.append(("shrink-unsound", "shrink() removed the FREE variable %d (alpha=%r in (%r,%r))%s" % (v, av, lv, hv, how))); break
+        if at_lo and at_hi: continue                   # cannot move at all
+        if c["kind"] == "svm":
+            if at_lo and sd is not None and gv - sd[0] > tol:
+                msgs.append(("shrink-unsound", "shrink() removed variable %d (at its lower bound, alpha=%r, true gradient %r) although the feasible direction e_%d - e_%d "
+                             "(variable %d can move down, true gradient %r) has first-order gain %.6g > tol %.3g%s" % (v, av, gv, v, sd[1], sd[1], sd[0], gv - sd[0], tol, how))); break
+            if at_hi and lu is not None and lu[0] - gv > tol:
+                msgs.append(("shrink-unsound", "shrink() removed variable %d (at its upper bound, alpha=%r, true gradient %r) although the feasible direction e_%d - e_%d "
+                             "(variable %d can move up, true gradient %r) has first-order gain %.6g > tol %.3g%s" % (v, av, gv, lu[1], v, lu[1], lu[0], lu[0] - gv, tol, how))); break
+        else:
+            if (at_lo and gv > tol) or (at_hi and -gv > tol):
+                msgs.append(("shrink-unsound", "shrink() removed variable %d (at its %s bound, alpha=%r) although its true gradient %r allows a first-order gain %.6g > tol %.3g%s"
+                             % (v, "lower" if at_lo else "upper", av, gv, abs(gv), tol, how))); break
+    if info is not None:
+        info["inside"] = inside; info["removed"] = removed
+        if inside:
+            lu0, sd0 = bounds(set(prev.perm[:prev.active]))
+            info["bounds_moved"] = (lu0 != lu) or (sd0 != sd)
+    return msgs
+
+def true_kkt(c, s, g):
+    """largest KKT violation of the state with the gradient g (position order)"""
+    n = c["n"]
+    if c["kind"] == "svm":
+        up = [g[a] for a in range(n) if s.alpha[a] < s.hi[a]]
+        dn = [g[a] for a in range(n) if s.alpha[a] > s.lo[a]]
+        return (max(up) if up else -1e100) - (min(dn) if dn else 1e100)
+    v = 0.0
+    for a in range(n):
+        if s.alpha[a] < s.hi[a]: v = max(v, g[a])
+        if s.alpha[a] > s.lo[a]: v = max(v, -g[a])
+    return v
+
+def monitor(c, run, K, stop_first=True, stats=None):
     """returns list of (event_index, key, message); event_index -1 = initial state"""
     n = c["n"]; bad = []
+    if stats is None: stats = {}
     if run["exc"]: return [(-1, "exception", "solver threw: " + run["exc"])]
     if run["s0"] is None or run["K"] is None: return [(-1, "crash", "no initial snapshot (crash?)")]
     # the solver's matrix entries against the independently computed kernel matrix
@@ -224,15 +399,30 @@ def monitor(c, run, K, stop_first=True):
             if abs(a - b) > rel * max(abs(a), abs(b)) + 16 * c["d"] * EPSM * cs + 1e-300:
                 return [(-1, "kernel-entry", "quadratic().entry(%d,%d)=%r differs from independently computed %r" % (i, j, a, b))]
             kd = max(kd, abs(a - b))
+    # data of the problem by ORIGINAL index; the mutators of an object history change them
     lin0 = [1.0 if y else -1.0 for y in c["y"]]
     lo0 = [0.0 if y else -c["Cneg"] for y in c["y"]]
     hi0 = [c["Cpos"] if y else 0.0 for y in c["y"]]
-    states = [("init", [], run["s0"])] + [(e[0], e[1], e[2]) for e in run["events"]]
-    if run["final"] is not None: states.append(("final", [], run["final"]))
-    prev = None; prevobj = None; sum0 = None; nsmo = 0; amax = 1.0; hscale = 1.0
-    for idx, (name, args, s) in enumerate(states):
-        ev = idx - 1
+    states = [("init", [], run["s0"], -1)]
+    for it in run["order"]:
+        if it[0] == "E":
+            k = it[1]; name, args, snap, raw = run["events"][k]
+            if k in run["pre"]: states.append(("pre", [str(run["pre"][k][0])], run["pre"][k][1], k))
+            states.append((name, args, snap, k))
+        elif it[0] == "F": states.append(("final", [], it[1], len(run["events"]) - 1))
+    prev = None; prevobj = None; sum0 = None; nsmo = 0; amax = 1.0; hscale = 1.0; shrink_on = bool(run["shrink"]); edge_ok = shrink_on
+    nfinal = 0; finals = []
+    for idx, (name, args, s, ev) in enumerate(states):
         msgs = []
+        if name == "pre": nsmo = max(nsmo, int(args[0]))
+        # ---- what a mutator of the object history does to the DATA of the problem (by original index)
+        if name == "setlin" and prev is not None: lin0[prev.perm[int(args[0])]] = pfl(args[1])
+        if name == "scale":
+            f = pfl(args[0]); lo0 = [v * f for v in lo0]; hi0 = [v * f for v in hi0]
+        if name in ("setinit", "scale"): sum0 = None
+        if name == "setshr":
+            shrink_on = args[0] == "1"
+            if not shrink_on: edge_ok = False        # m_gradientEdge is not maintained while m_shrink is false
         # permutation and consistently permuted per-variable data
         if sorted(s.perm) != list(range(n)): msgs.append(("perm", "permutation %s is not a permutation" % s.perm))
         else:
@@ -252,11 +442,11 @@ def monitor(c, run, K, stop_first=True):
             amax = max(amax, max(abs(v) for v in s.alpha))
             asum = sum(abs(v) for v in s.alpha)
             tol = 32 * EPSM * (nsmo + 8) * scale + 2 * kd * asum
-            if c["matrix"].startswith("cf") and c["warm"]: tol += 2.0 ** -22 * scale   # setInitialSolution multiplies in float for a float cache
+            if c["matrix"].startswith("cf") and (c["warm"] or "setinit" in stats.get("_muts", ())): tol += 2.0 ** -22 * scale   # setInitialSolution multiplies in float for a float cache
             for a in range(s.active):
                 if not abs(s.grad[a] - g[a]) <= tol:
                     msgs.append(("grad", "gradient[%d]=%r but linear - K alpha = %r (|diff| %.3g > tol %.3g), active=%d" % (a, s.grad[a], g[a], abs(s.grad[a] - g[a]), tol, s.active))); break
-            if run["shrink"] and not msgs:
+            if edge_ok and not msgs:
                 for a in range(n):
                     if not abs(s.gedge[a] - ge[a]) <= tol:
                         gk = "gedge:double-update-i-eq-j" if (name == "smo" and args[0] == args[1]) else "gedge"
@@ -268,12 +458,13 @@ def monitor(c, run, K, stop_first=True):
             if c["kind"] == "svm" and not abs(sm - sum0) <= 8 * EPSM * (nsmo + 4) * n * amax:
                 msgs.append(("sum", "sum(alpha)=%r differs from the initial %r" % (sm, sum0)))
             otol = 64 * EPSM * (nsmo + 8) * max(1.0, scale * asum) + 4 * kd * asum * asum
-            if c["matrix"].startswith("cf") and c["warm"]: otol += 2.0 ** -22 * scale * asum
+            if c["matrix"].startswith("cf") and (c["warm"] or "setinit" in stats.get("_muts", ())): otol += 2.0 ** -22 * scale * asum
             if s.active == n and not abs(s.fval - obj) <= otol:
                 msgs.append(("fval", "functionValue()=%r but recomputed objective %r" % (s.fval, obj)))
             if prev is not None:
+                po = dict(zip(prev.perm, prev.alpha)); so = dict(zip(s.perm, s.alpha))
                 if name == "smo":
-                    i, j = int(args[0]), int(args[1])
+                    i, j = int(args[0]), int(args[1]); nsmo += 1
                     if not (i < prev.active and j < prev.active): msgs.append(("ws", "working set (%d,%d) not inside the active set %d" % (i, j, prev.active)))
                     for a in range(n):
                         if a != i and a != j and s.alpha[a] != prev.alpha[a]:
@@ -286,32 +477,30 @@ def monitor(c, run, K, stop_first=True):
                             if det <= 1e-12 and (K[pi][pi] > 0 or K[pj][pj] > 0): key = "box2d:tiny-det-fallback"
                         elif c["kind"] == "box" and 0 < K[prev.perm[i]][prev.perm[i]] < 1e-12: key = "edge1d:tiny-Q"
                         msgs.append((key, "dual objective decreased in SMO step (%d,%d): %r -> %r (drop %.6g, tol %.3g)" % (i, j, prevobj, obj, prevobj - obj, otol)))
+                elif name == "pre":
+                    # sparse recording: only updateSMO calls lie between the previous recorded state and this one
+                    if prevobj is not None and not (obj >= prevobj - otol):
+                        msgs.append(("objective-decrease", "dual objective decreased between two recorded states (updateSMO calls only): %r -> %r (drop %.6g, tol %.3g)" % (prevobj, obj, prevobj - obj, otol)))
+                elif name == "setinit":
+                    want = {p: pfl(args[p]) for p in range(n)}
+                    if so != want: msgs.append(("setinit-alpha", "setInitialSolution(alpha) did not store the given coefficients (by original index)"))
+                elif name == "scale":
+                    v = pfl(args[1])
+                    for q in range(n):
+                        if not abs(so[q] - po[q] * v) <= 4 * EPSM * abs(po[q] * v):
+                            msgs.append(("scale-alpha", "scaleBoxConstraints: variable %d went from %r to %r, expected %r" % (q, po[q], so[q], po[q] * v))); break
                 else:
-                    # shrink / unshrink / checkKKT / final: the variables (as a map original index -> value) must not change
-                    po = dict(zip(prev.perm, prev.alpha)); so = dict(zip(s.perm, s.alpha))
+                    # shrink / unshrink / checkKKT / final / setLinear / activateVariable / flipCoordinates / setShrinking:
+                    # the variables (as a map original index -> value) must not change
                     if po != so: msgs.append(("alpha-moved", "%s changed coefficient values" % name))
                     if name == "shrink":
-                        gp, _, _, _ = recompute(c, K, prev)
-                        orig_g = dict(zip(prev.perm, gp)); was_active = set(prev.perm[:prev.active]) if not (prev.active < n and s.unshr and not prev.unshr) else set(prev.perm)
-                        now_active = set(s.perm[:s.active])
-                        pool = was_active
-                        for a in range(s.active, n):
-                            v = s.perm[a]
-                            if v not in was_active: continue         # was shrunk before
-                            gv = orig_g[v]
-                            for b in range(n):
-                                u = prev.perm[b]
-                                if u == v or u not in pool: continue
-                                if c["kind"] == "svm":
-                                    # v at lower bound may only increase: needs a partner u that may decrease (not at lower) with g_v > g_u
-                                    if s.fl[a] and not s.fu[a] and not prev.fl[b] and gv - orig_g[u] > tol:
-                                        msgs.append(("shrink-unsound", "shrunk variable %d (lower bound, g=%r) could still improve with variable %d (g=%r)" % (v, gv, u, orig_g[u]))); break
-                                    if s.fu[a] and not s.fl[a] and not prev.fu[b] and orig_g[u] - gv > tol:
-                                        msgs.append(("shrink-unsound", "shrunk variable %d (upper bound, g=%r) could still improve with variable %d (g=%r)" % (v, gv, u, orig_g[u]))); break
-                            if c["kind"] == "box":
-                                if (s.fl[a] and not s.fu[a] and gv > tol) or (s.fu[a] and not s.fl[a] and gv < -tol):
-                                    msgs.append(("shrink-unsound", "shrunk variable %d at a bound has an improving gradient %r" % (v, gv)))
-                            if msgs: break
+                        info = {}
+                        msgs += shrink_event_check(c, K, prev, s, tol, info)
+                        stats["shrink_calls"] = stats.get("shrink_calls", 0) + 1
+                        if info.get("removed"): stats["shrink_removing"] = stats.get("shrink_removing", 0) + 1; stats["removed"] = stats.get("removed", 0) + info["removed"]
+                        if info.get("inside"):
+                            stats["inside"] = stats.get("inside", 0) + 1
+                            if info.get("bounds_moved"): stats["inside_moved"] = stats.get("inside_moved", 0) + 1
                     if name == "kkt":
                         # reported value = largest KKT violation, recomputed from the snapshot's own gradient
                         if c["kind"] == "svm":
@@ -325,12 +514,46 @@ def monitor(c, run, K, stop_first=True):
                                 if s.alpha[a] != s.hi[a]: want = max(want, s.grad[a])
                                 if s.alpha[a] != s.lo[a]: want = max(want, -s.grad[a])
                         if pfl(args[0]) != want: msgs.append(("kkt-value", "checkKKT()=%r but the largest KKT violation of the state is %r" % (pfl(args[0]), want)))
-            prevobj = obj
-        if name == "smo": nsmo += 1
-        for k, m in msgs: bad.append((ev, k, "%s [event %d: %s %s]" % (m, ev, name, " ".join(args))))
+            if name == "final" and not msgs:
+                # end of a solve: reported value, and - when the solver reports the accuracy - un-shrunk state with the TRUE KKT violation below eps
+                e = run["ends"][nfinal] if nfinal < len(run["ends"]) else None; nfinal += 1
+                finals.append((s, obj, e))
+                if e is not None:
+                    if e[2] != s.fval: msgs.append(("end-value", "reported objective %r differs from functionValue() %r of the final state" % (e[2], s.fval)))
+                    if e[0] == 1:
+                        if s.active != n: msgs.append(("end-shrunk", "solver reports QpAccuracyReached but %d variables are still shrunk" % (n - s.active)))
+                        else:
+                            kv = true_kkt(c, s, g)
+                            if not kv <= c["eps"] + 2 * tol:
+                                msgs.append(("end-kkt", "solver reports accuracy %r < eps but the KKT violation with the true gradient lin - K alpha is %r" % (e[3], kv)))
+            prevobj = None if name == "setlin" else obj
+            if name in MUTATORS: prevobj = obj if name not in ("setlin",) else obj
+        elif name == "smo": nsmo += 1
+        for k, m in msgs: bad.append((ev, k, "%s [event %d: %s %s]" % (m, ev, name, " ".join(args[:6]))))
         if bad and stop_first: break
         if msgs: break          # later states are not meaningful once an invariant is broken
         prev = s
+    # ---- object history: the optimum of the reused object against a FRESH object built from the modified data
+    if not bad and run["fresh"] is not None and len(finals) >= 2 and finals[1][2] is not None:
+        ft, fit, fv, facc, fact, fal = run["fresh"]
+        s2, obj2, e2 = finals[1]
+        stats["fresh_compared"] = stats.get("fresh_compared", 0)
+        if len(fal) == n and all(lo0[p] <= fal[p] <= hi0[p] for p in range(n)):
+            nzf = [q for q in range(n) if fal[q] != 0.0]
+            objf = math.fsum(fal[p] * (lin0[p] - 0.5 * math.fsum(K[p][q] * fal[q] for q in nzf)) for p in range(n))
+            sum2 = math.fsum(s2.alpha); sumf = math.fsum(fal)
+            same_problem = c["kind"] != "svm" or abs(sum2 - sumf) <= 64 * EPSM * n * max(1.0, max(abs(v) for v in s2.alpha))
+            if e2[0] == 1 and ft == 1 and same_problem:
+                # both runs report an eps-KKT point of the same concave problem: f* - f(alpha) <= eps * sum(box widths)
+                gap = c["eps"] * math.fsum(hi0[p] - lo0[p] for p in range(n))
+                asum = sum(abs(v) for v in fal) + sum(abs(v) for v in s2.alpha)
+                slack = 1e-9 * max(1.0, abs(objf), abs(obj2)) + 4 * kd * asum * asum + (2.0 ** -20 * asum * asum if c["matrix"].startswith("cf") else 0.0)
+                stats["fresh_compared"] += 1
+                if not abs(objf - obj2) <= gap + slack:
+                    bad.append((len(run["events"]) - 1, "fresh-object", "after the mutators the reused object converges to objective %r, a fresh object built from the modified data to %r "
+                                "(difference %.6g > eps*sum(box widths) %.6g) [second solve]" % (obj2, objf, abs(objf - obj2), gap + slack)))
+        else:
+            bad.append((len(run["events"]) - 1, "fresh-object", "fresh object returned coefficients outside the (modified) box [second solve]"))
     return bad
 
 # ------------------------------------------------------------------------------------------------
@@ -452,7 +675,7 @@ def main():
     cfgs = []
     if ck.replay:
         for l in open(ck.replay).read().split("\n"):
-            if l.startswith("RUN "): cfgs.append(parse_run_line(l))
+            if l.split(" ", 1)[0] in ("RUN", "LRUN", "HIST"): cfgs.append(parse_run_line(l))
     else:
         cdir = os.path.join(ROOT, "corpus", PID)
         if os.path.isdir(cdir):
